@@ -782,6 +782,44 @@ def xcanon_code(co, py2file, version=None):
     return d
 
 
+def instr_to_dict(ins, opc, py2file, cmp_op):
+    op = ins.opcode
+    kind = None
+    argval = None
+    if ins.arg is not None:
+        if op in opc.CONST_OPS:
+            kind = "const"
+            av = ins.argval
+            if hasattr(av, "co_code"):
+                argval = ["C", {"co_name": xcanon(av.co_name, py2file),
+                                "co_firstlineno": xcanon(getattr(av, "co_firstlineno", None), py2file)}]
+            else:
+                argval = xcanon(av, py2file)
+        elif op in opc.NAME_OPS:
+            kind = "name"
+            argval = xcanon(ins.argval, py2file)
+        elif op in opc.JREL_OPS:
+            kind = "jrel"
+            argval = ins.argval
+        elif op in opc.JABS_OPS:
+            kind = "jabs"
+            argval = ins.argval
+        elif op in opc.LOCAL_OPS:
+            kind = "local"
+            argval = xcanon(ins.argval, py2file)
+        elif op in opc.COMPARE_OPS:
+            kind = "compare"
+            argval = cmp_op.index(ins.argval) if ins.argval in cmp_op else ["?", repr(ins.argval)]
+        elif op in opc.FREE_OPS:
+            kind = "free"
+            argval = xcanon(ins.argval, py2file)
+    return {"o": ins.offset, "op": op, "n": ins.opname, "a": ins.arg, "k": kind,
+            "v": argval, "j": bool(ins.is_jump_target), "l": ins.starts_line,
+            "sz": ins.inst_size, "x": bool(ins.has_extended_arg),
+            "ha": bool(ins.has_arg), "ot": ins.optype,
+            "r": ins.argrepr if (ins.argrepr is None or isinstance(ins.argrepr, str)) else str(ins.argrepr)}
+
+
 def x_instr_dump(co, opc, max_code=None, dup_lines=False):
     """Instruction stream, labels, line starts ... of one code object as xdis sees it."""
     x = xd()
@@ -829,41 +867,7 @@ def x_instr_dump(co, opc, max_code=None, dup_lines=False):
         instrs = []
         cmp_op = list(getattr(opc, "cmp_op", ()))
         for ins in bc:
-            op = ins.opcode
-            kind = None
-            argval = None
-            if ins.arg is not None:
-                if op in opc.CONST_OPS:
-                    kind = "const"
-                    av = ins.argval
-                    if hasattr(av, "co_code"):
-                        argval = ["C", {"co_name": xcanon(av.co_name, py2file),
-                                        "co_firstlineno": xcanon(getattr(av, "co_firstlineno", None), py2file)}]
-                    else:
-                        argval = xcanon(av, py2file)
-                elif op in opc.NAME_OPS:
-                    kind = "name"
-                    argval = xcanon(ins.argval, py2file)
-                elif op in opc.JREL_OPS:
-                    kind = "jrel"
-                    argval = ins.argval
-                elif op in opc.JABS_OPS:
-                    kind = "jabs"
-                    argval = ins.argval
-                elif op in opc.LOCAL_OPS:
-                    kind = "local"
-                    argval = xcanon(ins.argval, py2file)
-                elif op in opc.COMPARE_OPS:
-                    kind = "compare"
-                    argval = cmp_op.index(ins.argval) if ins.argval in cmp_op else ["?", repr(ins.argval)]
-                elif op in opc.FREE_OPS:
-                    kind = "free"
-                    argval = xcanon(ins.argval, py2file)
-            instrs.append({"o": ins.offset, "op": op, "n": ins.opname, "a": ins.arg, "k": kind,
-                           "v": argval, "j": bool(ins.is_jump_target), "l": ins.starts_line,
-                           "sz": ins.inst_size, "x": bool(ins.has_extended_arg),
-                           "ha": bool(ins.has_arg), "ot": ins.optype,
-                           "r": ins.argrepr if (ins.argrepr is None or isinstance(ins.argrepr, str)) else str(ins.argrepr)})
+            instrs.append(instr_to_dict(ins, opc, py2file, cmp_op))
         res["instrs"] = instrs
         if getattr(bc, "exception_entries", None) is not None:
             res["exc"] = [[e.start, e.end, e.target, e.depth, bool(e.lasti)]
@@ -1168,8 +1172,228 @@ def op_x_c07(req):
     return out
 
 
-def exec_objects(req, use_xdis):
-    raise NotImplementedError
+def _materialise(src):
+    """Execute a generated (terminating, import-free) program and collect disassemblable objects."""
+    ns = {"__name__": "vfprog"}
+    top = compile(src, "<c20>", "exec", 0, True)
+    try:
+        exec(top, ns)
+    except BaseException:
+        pass                    # objects defined before the exception are still there
+    objs = [("code", top), ("source", src)]
+    seen = set()
+    for name in sorted(k for k in ns if not k.startswith("__")):
+        v = ns[name]
+        if id(v) in seen:
+            continue
+        seen.add(id(v))
+        if isinstance(v, types.FunctionType):
+            co = v.__code__
+            objs.append(("function", v))
+            objs.append(("method", types.MethodType(v, object())))
+            nargs = co.co_argcount + co.co_kwonlyargcount
+            flags = co.co_flags
+            if flags & 0x20 or flags & 0x80 or flags & 0x200:      # generator / coroutine / async generator
+                try:
+                    kw = dict((n, None) for n in co.co_varnames[co.co_argcount:nargs])
+                    g = v(*([None] * co.co_argcount), **kw)
+                    kind = "async_generator" if flags & 0x200 else ("coroutine" if flags & 0x80 else "generator")
+                    objs.append((kind, g))
+                except BaseException:
+                    pass
+        elif isinstance(v, type) and v.__module__ == "vfprog":
+            objs.append(("class", v))
+    return objs
+
+
+def _argval_eq(a, b):
+    if a is b:
+        return True
+    if hasattr(a, "co_code") and hasattr(b, "co_code"):
+        # a source string is compiled afresh by every call
+        return (a.co_name, a.co_firstlineno, a.co_code) == (b.co_name, b.co_firstlineno, b.co_code)
+    try:
+        if a == b and type(a) is type(b):
+            return True
+    except Exception:
+        pass
+    return repr(a) == repr(b) and type(a) is type(b)
+
+
+def op_x_std(req):
+    """C20 on this host: xdis.std against the host's own dis on objects of one program."""
+    import dis
+    import opcode
+    x = xd()
+    xs = x.std
+    fl = req.get("first_line")
+    try:
+        objs = _materialise(req["src"])
+    except (SyntaxError, ValueError, OverflowError, RecursionError, MemoryError) as e:
+        return {"reject": "%s: %s" % (type(e).__name__, e)}
+    fails = []
+    seen_kinds = {}
+    hasarg = set(getattr(opcode, "hasarg", ()))
+    table = set(opcode.hasconst) | set(opcode.hasname) | set(opcode.haslocal) | set(opcode.hasfree)
+    jumps = set(opcode.hasjrel) | set(getattr(opcode, "hasjabs", ()))
+    ref_cmp = list(opcode.cmp_op)
+    x_cmp = list(xs.opc.cmp_op)
+
+    def takes(op):
+        return (op in hasarg) if hasarg else op >= opcode.HAVE_ARGUMENT
+
+    def line_of(i):
+        if PYV >= (3, 13):
+            return i.line_number if i.starts_line else None
+        return i.starts_line
+
+    def compare_streams(kind, what, ref, got):
+        got = [g for g in got if g.opname != "CACHE"]
+        ref = [r for r in ref if r.opname != "CACHE"]
+        if len(ref) != len(got):
+            fails.append(["%s|%s|count" % (what, kind), "%s(%s): dis yields %d instructions, xdis.std %d" % (what, kind, len(ref), len(got))])
+            return
+        for r, g in zip(ref, got):
+            if (r.opcode, r.opname.replace("+", "_"), r.offset) != (g.opcode, g.opname.replace("+", "_"), g.offset):
+                fails.append(["%s|%s|opcode-offset" % (what, kind), "%s(%s): dis %s@%d, xdis.std %s@%d" % (what, kind, r.opname, r.offset, g.opname, g.offset)])
+                return
+            if takes(r.opcode) and r.arg != g.arg:
+                fails.append(["%s|%s|arg|%s" % (what, kind, r.opname), "%s(%s) %s@%d: arg %r vs %r" % (what, kind, r.opname, r.offset, r.arg, g.arg)])
+                return
+            rj = bool(r.is_jump_target)
+            if PYV >= (3, 13) and rj and r.offset not in jt313.get(what, ()):
+                rj = False      # 3.13's dis also labels the start/end of exception ranges; see C04
+            if rj != bool(g.is_jump_target):
+                fails.append(["%s|%s|is_jump_target" % (what, kind), "%s(%s) %s@%d: is_jump_target dis %s, xdis.std %s" % (
+                    what, kind, r.opname, r.offset, r.is_jump_target, g.is_jump_target)])
+                return
+            if line_of(r) != g.starts_line:
+                fails.append(["%s|%s|starts_line|first_line=%s" % (what, kind, "None" if fl is None else "given"),
+                              "%s(%s, first_line=%r) %s@%d: starts_line dis %r, xdis.std %r" % (what, kind, fl, r.opname, r.offset, line_of(r), g.starts_line)])
+                return
+            if takes(r.opcode):
+                if r.opcode in table or r.opcode in jumps:
+                    if type(r.argval).__name__ == "_Unknown":
+                        continue
+                    if not _argval_eq(r.argval, g.argval):
+                        fails.append(["%s|%s|argval|%s" % (what, kind, r.opname), "%s(%s) %s@%d arg %r: argval dis %r, xdis.std %r" % (
+                            what, kind, r.opname, r.offset, r.arg, r.argval, g.argval)])
+                        return
+                elif r.opcode in opcode.hascompare:
+                    rv = r.argval
+                    if isinstance(rv, str) and rv.startswith("bool("):
+                        rv = rv[5:-1]
+                    ri = ref_cmp.index(rv) if rv in ref_cmp else rv
+                    gi = x_cmp.index(g.argval) if g.argval in x_cmp else g.argval
+                    if ri != gi:
+                        fails.append(["%s|%s|argval|%s" % (what, kind, r.opname), "%s(%s) %s@%d: compare operator dis %r, xdis.std %r" % (
+                            what, kind, r.opname, r.offset, r.argval, g.argval)])
+                        return
+
+    jt313 = {}
+    for kind, obj in objs:
+        seen_kinds[kind] = seen_kinds.get(kind, 0) + 1
+        if PYV >= (3, 13):
+            try:
+                cobj = x.cross_dis.get_code_object(obj)
+                tg = set(dis.findlabels(cobj.co_code))
+                jt313["get_instructions"] = set(tg)
+                jt313["Bytecode"] = tg | set(e.target for e in dis._parse_exception_table(cobj))
+            except Exception:
+                jt313 = {}
+        for what, rf, xf in (
+            ("get_instructions", lambda: list(dis.get_instructions(obj, first_line=fl)),
+             lambda: list(xs.get_instructions(obj, first_line=fl))),
+            ("Bytecode", lambda: list(dis.Bytecode(obj, first_line=fl)), lambda: list(xs.Bytecode(obj, first_line=fl))),
+        ):
+            try:
+                ref = rf()
+            except Exception as e:
+                continue            # dis itself does not accept this object here
+            try:
+                got = xf()
+            except Exception as e:
+                fails.append(["%s|%s|raised|%s" % (what, kind, type(e).__name__), "dis.%s accepts a %s, xdis.std.%s raises %s: %s" % (what, kind, what, type(e).__name__, e)])
+                continue
+            compare_streams(kind, what, ref, got)
+        for what, rf, xf in (("code_info", lambda: dis.code_info(obj), lambda: xs.code_info(obj)),
+                             ("dis", lambda: dis.dis(obj, file=__import__("io").StringIO()), lambda: xs.dis(obj, file=__import__("io").StringIO()))):
+            try:
+                rf()
+            except Exception:
+                continue
+            try:
+                xf()
+            except Exception as e:
+                fails.append(["%s|%s|raised|%s" % (what, kind, type(e).__name__), "dis.%s accepts a %s, xdis.std.%s raises %s: %s" % (what, kind, what, type(e).__name__, str(e)[:200])])
+        co = None
+        if kind == "code":
+            co = obj
+        elif kind == "function":
+            co = obj.__code__
+        if co is not None:
+            try:
+                a, b = sorted(set(dis.findlabels(co.co_code))), sorted(set(xs.findlabels(co.co_code)))
+                if a != b:
+                    fails.append(["findlabels|%s" % kind, "findlabels: dis %s, xdis.std %s" % (a[:10], b[:10])])
+            except Exception as e:
+                fails.append(["findlabels|%s|raised|%s" % (kind, type(e).__name__), "xdis.std.findlabels raised %s" % e])
+            try:
+                a, b = [list(t) for t in dis.findlinestarts(co)], [list(t) for t in xs.findlinestarts(co)]
+                if a != b:
+                    fails.append(["findlinestarts|%s" % kind, "findlinestarts: dis %s, xdis.std %s" % (a[:8], b[:8])])
+            except Exception as e:
+                fails.append(["findlinestarts|%s|raised|%s" % (kind, type(e).__name__), "xdis.std.findlinestarts raised %s" % e])
+    # module-level tables
+    for nm in ("opmap", "opname", "hasconst", "hasname", "HAVE_ARGUMENT", "EXTENDED_ARG"):
+        rv, gv = getattr(dis, nm), getattr(xs, nm)
+        if nm == "opmap":
+            rv = dict((k.replace("+", "_"), v) for k, v in rv.items() if v < 256)
+            gv = dict((k.replace("+", "_"), v) for k, v in gv.items() if v < 256)
+        elif nm == "opname":
+            rv = [n.replace("+", "_") for n in list(rv)[:256]]
+            gv = [n.replace("+", "_") for n in list(gv)[:256]]
+            rv = [("<>" if n.startswith("<") else n) for n in rv]
+            gv = [("<>" if n.startswith("<") else n) for n in gv]
+        elif nm in ("hasconst", "hasname"):
+            rv, gv = sorted(v for v in rv if v < 256), sorted(v for v in gv if v < 256)
+        if rv != gv:
+            fails.append(["table|%s" % nm, "xdis.std.%s differs from dis.%s" % (nm, nm)])
+    for kind, obj in objs:
+        if kind in ("coroutine",):
+            try:
+                obj.close()
+            except Exception:
+                pass
+    return {"fails": fails, "kinds": seen_kinds}
+
+
+def op_x_std_api(req):
+    """C20 case B: make_std_api(version) on this host applied to a file of that version."""
+    x = xd()
+    data = unhx(req["data"])
+    version, ts, magic_int, co, is_pypy, size, sip = x_load_bytes(data)
+    vt = tuple(int(p) for p in req["version"].split("."))
+    api = x.std.make_std_api(vt, None)
+    opc = api.opc
+    out = []
+    for c in x_walk_codes(co):
+        d = {"codelen": len(c.co_code)}
+        d["labels"] = sorted(set(api.findlabels(c.co_code)))
+        d["linestarts"] = [[a, b] for a, b in api.findlinestarts(c)]
+        if req.get("max_code") and len(c.co_code) > req["max_code"]:
+            d["skipped"] = len(c.co_code)
+            out.append(d)
+            continue
+        try:
+            cmp_op = list(getattr(opc, "cmp_op", ()))
+            d["instrs"] = [instr_to_dict(i, opc, vt < (3, 0), cmp_op) for i in api.get_instructions(c)]
+        except Exception as e:
+            import traceback
+            d["instrs_err"] = "%s: %s" % (type(e).__name__, e)
+            d["instrs_tb"] = traceback.format_exc()[-1500:]
+        out.append(d)
+    return {"dis": out}
 
 
 OPS = {}
